@@ -68,6 +68,8 @@ func allProps() []*Prop {
 		propC01(),
 		propC03(),
 		propC13(),
+		propC14(),
+		propC15(),
 		propC16(),
 		propC02(),
 		propC04(),
@@ -423,5 +425,55 @@ func propC16() *Prop {
 		Assumptions: append([]string{"crypto/rand.Read fills the buffer with arbitrary bytes and returns no error (documented never to fail on Linux); uniqueness across requests is reduced to: distinct 12-byte draws give distinct identifiers (injectivity, decided for all 2^192 pairs of draws)", "client-supplied ID values are what net/http's parser can deliver: 1..3 printable ASCII bytes without surrounding white space, or absent", "downstream handler: a backend stub, or http.Error with 429 / 503 / 413"}, commonAssumptions...),
 		Bounds:  map[string]string{"quick": "all 4 enabled/disabled combinations x default/custom header names x client value absent or any 1..3 printable bytes x 4 downstream response kinds", "thorough": "same"},
 		Outside: []string{"10^5 concurrent generations (reduced to injectivity + crypto/rand's contract)", "the example request-id plugin overriding the middleware's value", "timestamp fallback when crypto/rand fails"},
+	}
+}
+
+func propC14() *Prop {
+	return &Prop{
+		ID: "C14", Title: "size_limit plugin: bodies are bounded, everything within bounds is untouched",
+		Jobs: func(tier string) []*sym.Job {
+			var js []*sym.Job
+			for k := int64(1); k <= tierPick(tier, 4, 5); k++ {
+				js = append(js, job(fmt.Sprintf("C14a/response-side[k=%d]", k), "plugins", "VerifC14Response", k))
+			}
+			js = append(js, job("C14b/request-side", "plugins", "VerifC14Request"))
+			js = append(js, job("C14c/options", "plugins", "VerifC14Options"))
+			js = append(js, neg(job("C14/negative-twin", "plugins", "VerifC14Neg")))
+			return js
+		},
+		Assumptions: append([]string{"handler alphabet is that of a well-behaved handler: at most one final WriteHeader, before its first Write; writes of 0..3 bytes; limits 1..8 (response) / 1..4 (request) - every ordering of cumulative size and limit is reachable", "the client connection is a recording ResponseWriter implementing net/http's documented contract; http.MaxBytesReader runs from its real SSA body over a chunk-delivering body stub"}, commonAssumptions...),
+		Bounds: map[string]string{
+			"quick":    "every handler script of <= 4 calls over {WriteHeader(200..599), Write(0..3 bytes), Flush}; request bodies of 0..5 bytes, declared or chunked, limits 1..4; option values over all 64-bit ints typed int/int64",
+			"thorough": "scripts of <= 5 calls",
+		},
+		Outside: []string{"float64-typed option values", "interim 1xx responses through the plugin", "bodies larger than a few bytes (size relations are covered, absolute sizes are not)"},
+	}
+}
+
+func propC15() *Prop {
+	return &Prop{
+		ID: "C15", Title: "gzip plugin: what the client decodes is exactly what the backend sent",
+		Jobs: func(tier string) []*sym.Job {
+			var js []*sym.Job
+			for w := int64(0); w <= tierPick(tier, 2, 3); w++ {
+				j := job(fmt.Sprintf("C15/wire-view[writes=%d,level=5]", w), "plugins", "VerifC15Wire", w, 5)
+				j.MaxPaths = 2000000
+				js = append(js, j)
+			}
+			for lvl := int64(-1); lvl <= 9; lvl++ {
+				if lvl == 5 {
+					continue
+				}
+				js = append(js, job(fmt.Sprintf("C15/wire-view[writes=1,level=%d]", lvl), "plugins", "VerifC15Wire", 1, lvl))
+			}
+			js = append(js, neg(job("C15/negative-twin", "plugins", "VerifC15Neg")))
+			return js
+		},
+		Assumptions: append([]string{"compress/gzip is an abstract encoder: NewWriterLevel fails iff level is outside [-2,9]; Close emits exactly one opaque token carrying the buffered content (DEFLATE itself is not encoded); natively the real gzip runs and the harness decodes with gzip.NewReader", "the client sees the header snapshot frozen at the first WriteHeader (net/http's documented contract), the body bytes, and the status", "bytes.Buffer runs from its real SSA body"}, commonAssumptions...),
+		Bounds: map[string]string{
+			"quick":    "9 Accept-Encoding spellings x 4 content types x already-encoded or not x declared Content-Length or not x explicit/implicit WriteHeader (status 200..599) x compression levels -1..9 x min_size 0..4 x bodies written in <= 2 writes of 0..2 bytes",
+			"thorough": "<= 3 writes",
+		},
+		Outside: []string{"bodies around the 10MB buffering cap (streaming fallback)", "DEFLATE correctness", "q-values"},
 	}
 }
